@@ -76,7 +76,9 @@ Record link := {
   l_sent : list wmsg;
   l_rdy_a : list wmsg; l_rdy_b : list wmsg;   (* deliverable[a], deliverable[b] *)
   l_cut_ab : bool; l_cut_ba : bool;     (* direction explicitly partitioned *)
-  l_held_ab : bool; l_held_ba : bool    (* direction in State::Hold *)
+  l_held_ab : bool; l_held_ba : bool;   (* direction in State::Hold *)
+  l_rand_ab : bool; l_rand_ba : bool;   (* the cut is a State::RandPartition (broken by the fail_rate coin) *)
+  l_coins : list (bool * bool)          (* coming outcomes of (rand_partition, rand_repair) at this link's enqueues *)
 }.
 
 Record world := {
@@ -210,16 +212,28 @@ Definition on_link (l : link) (x y : N) : bool :=
 
 Definition set_sent (l : link) s :=
   {| l_a := l_a l; l_b := l_b l; l_sent := s; l_rdy_a := l_rdy_a l; l_rdy_b := l_rdy_b l;
-     l_cut_ab := l_cut_ab l; l_cut_ba := l_cut_ba l; l_held_ab := l_held_ab l; l_held_ba := l_held_ba l |}.
+     l_cut_ab := l_cut_ab l; l_cut_ba := l_cut_ba l; l_held_ab := l_held_ab l; l_held_ba := l_held_ba l;
+     l_rand_ab := l_rand_ab l; l_rand_ba := l_rand_ba l; l_coins := l_coins l |}.
 Definition set_rdys (l : link) ra rb :=
   {| l_a := l_a l; l_b := l_b l; l_sent := l_sent l; l_rdy_a := ra; l_rdy_b := rb;
-     l_cut_ab := l_cut_ab l; l_cut_ba := l_cut_ba l; l_held_ab := l_held_ab l; l_held_ba := l_held_ba l |}.
+     l_cut_ab := l_cut_ab l; l_cut_ba := l_cut_ba l; l_held_ab := l_held_ab l; l_held_ba := l_held_ba l;
+     l_rand_ab := l_rand_ab l; l_rand_ba := l_rand_ba l; l_coins := l_coins l |}.
 Definition set_cuts (l : link) ab ba :=
   {| l_a := l_a l; l_b := l_b l; l_sent := l_sent l; l_rdy_a := l_rdy_a l; l_rdy_b := l_rdy_b l;
-     l_cut_ab := ab; l_cut_ba := ba; l_held_ab := l_held_ab l; l_held_ba := l_held_ba l |}.
+     l_cut_ab := ab; l_cut_ba := ba; l_held_ab := l_held_ab l; l_held_ba := l_held_ba l;
+     l_rand_ab := l_rand_ab l; l_rand_ba := l_rand_ba l; l_coins := l_coins l |}.
 Definition set_helds (l : link) ab ba :=
   {| l_a := l_a l; l_b := l_b l; l_sent := l_sent l; l_rdy_a := l_rdy_a l; l_rdy_b := l_rdy_b l;
-     l_cut_ab := l_cut_ab l; l_cut_ba := l_cut_ba l; l_held_ab := ab; l_held_ba := ba |}.
+     l_cut_ab := l_cut_ab l; l_cut_ba := l_cut_ba l; l_held_ab := ab; l_held_ba := ba;
+     l_rand_ab := l_rand_ab l; l_rand_ba := l_rand_ba l; l_coins := l_coins l |}.
+Definition set_rands (l : link) ab ba :=
+  {| l_a := l_a l; l_b := l_b l; l_sent := l_sent l; l_rdy_a := l_rdy_a l; l_rdy_b := l_rdy_b l;
+     l_cut_ab := l_cut_ab l; l_cut_ba := l_cut_ba l; l_held_ab := l_held_ab l; l_held_ba := l_held_ba l;
+     l_rand_ab := ab; l_rand_ba := ba; l_coins := l_coins l |}.
+Definition set_coins (l : link) cs :=
+  {| l_a := l_a l; l_b := l_b l; l_sent := l_sent l; l_rdy_a := l_rdy_a l; l_rdy_b := l_rdy_b l;
+     l_cut_ab := l_cut_ab l; l_cut_ba := l_cut_ba l; l_held_ab := l_held_ab l; l_held_ba := l_held_ba l;
+     l_rand_ab := l_rand_ab l; l_rand_ba := l_rand_ba l; l_coins := cs |}.
 
 (* source / destination host of a message *)
 Definition msg_src (w : world) (m : wmsg) : option N :=
@@ -239,8 +253,13 @@ Definition msg_dst (w : world) (m : wmsg) : option N :=
               end
   end.
 
+Definition from_host (w : world) (h : N) (m : wmsg) : bool :=
+  match msg_src w m with Some s => N.eqb s h | None => false end.
+
 Definition cut_from (l : link) (src : N) : bool :=
   if N.eqb src (l_a l) then l_cut_ab l else l_cut_ba l.
+Definition rand_from (l : link) (src : N) : bool :=
+  if N.eqb src (l_a l) then l_rand_ab l else l_rand_ba l.
 Definition held_from (l : link) (src : N) : bool :=
   if N.eqb src (l_a l) then l_held_ab l else l_held_ba l.
 
@@ -262,9 +281,9 @@ Definition flow_link (w : world) (l : link) : link :=
   set_rdys (set_sent l keep) (l_rdy_a l ++ filter (to_host w (l_a l)) m)
            (l_rdy_b l ++ filter (fun x => negb (to_host w (l_a l) x) && to_host w (l_b l) x) m).
 
-(* Link::enqueue_message of a message from host src to host dst (src <> dst): dropped on a
-   partitioned direction, parked on a held one, otherwise due at once; then process_deliverables *)
-Definition link_send (w : world) (src dst : N) (m : wmsg) : world :=
+(* Link::enqueue of a message from host src to host dst (src <> dst): dropped on a partitioned
+   direction, parked on a held one, otherwise due at once; then process_deliverables *)
+Definition link_enqueue (w : world) (src dst : N) (m : wmsg) : world :=
   match find (fun l => on_link l src dst) (w_links w) with
   | None => syn_gone w m
   | Some l0 =>
@@ -273,6 +292,41 @@ Definition link_send (w : world) (src dst : N) (m : wmsg) : world :=
                           (fun l => flow_link w (set_sent l (l_sent l ++ [set_parked m (held_from l src)])))
                           (w_links w))
   end.
+
+(* Link::rand_partition_or_repair, first thing in every enqueue_message.  The outcomes of the two
+   coins are inputs (the link's coin list; (false, false) when it is exhausted: fail_rate 0).  The
+   partition coin breaks the directions that are healthy and drops what is in flight on them; a
+   direction that is held or explicitly partitioned keeps its state.  Otherwise the repair coin
+   repairs the directions the random process broke. *)
+Definition healthy_ab (l : link) : bool := negb (l_cut_ab l) && negb (l_held_ab l).
+Definition healthy_ba (l : link) : bool := negb (l_cut_ba l) && negb (l_held_ba l).
+Definition breaks (w : world) (l : link) (m : wmsg) : bool :=
+  if from_host w (l_a l) m then healthy_ab l else healthy_ba l.
+Definition rand_link (w : world) (l : link) : link * list wmsg :=
+  match l_coins l with
+  | [] => (l, [])
+  | (rp, rr) :: cs =>
+      let l1 := set_coins l cs in
+      if (healthy_ab l || healthy_ba l) && rp then
+        (set_sent (set_rands (set_cuts l1 (l_cut_ab l || healthy_ab l) (l_cut_ba l || healthy_ba l))
+                             (l_rand_ab l || healthy_ab l) (l_rand_ba l || healthy_ba l))
+                  (filter (fun m => negb (breaks w l m)) (l_sent l)),
+         filter (breaks w l) (l_sent l))
+      else if (l_rand_ab l || l_rand_ba l) && rr then
+        (set_rands (set_cuts l1 (l_cut_ab l && negb (l_rand_ab l)) (l_cut_ba l && negb (l_rand_ba l))) false false, [])
+      else (l1, [])
+  end.
+Definition rand_send (w : world) (src dst : N) : world :=
+  match find (fun l => on_link l src dst) (w_links w) with
+  | None => w
+  | Some l0 =>
+      fold_left syn_gone (snd (rand_link w l0))
+                (set_links w (upd_first (fun l => on_link l src dst) (fun _ => fst (rand_link w l0)) (w_links w)))
+  end.
+
+(* Link::enqueue_message *)
+Definition link_send (w : world) (src dst : N) (m : wmsg) : world :=
+  link_enqueue (rand_send w src dst) src dst m.
 
 (* send_loopback on host h *)
 Definition loop_send (w : world) (h : N) (m : wmsg) : world :=
@@ -565,14 +619,18 @@ Definition do_mature (w : world) (a b : N) (ks : list nat) : world :=
 Definition do_tick (w : world) : world := set_links w (map (flow_link w) (w_links w)).
 (* Link::hold / release / explicit_repair / repair_oneway *)
 Definition do_hold (w : world) (a b : N) : world :=
-  on_pair w a b (fun l => set_sent (set_helds (set_cuts l false false) true true) (map (fun m => set_parked m true) (l_sent l))).
+  on_pair w a b (fun l => set_sent (set_rands (set_helds (set_cuts l false false) true true) false false) (map (fun m => set_parked m true) (l_sent l))).
 Definition do_release (w : world) (a b : N) : world :=
-  on_pair w a b (fun l => set_sent (set_helds (set_cuts l false false) false false) (map (fun m => set_parked m false) (l_sent l))).
+  on_pair w a b (fun l => set_sent (set_rands (set_helds (set_cuts l false false) false false) false false) (map (fun m => set_parked m false) (l_sent l))).
 Definition do_repair (w : world) (a b : N) : world :=
-  on_pair w a b (fun l => set_helds (set_cuts l false false) false false).
+  on_pair w a b (fun l => set_rands (set_helds (set_cuts l false false) false false) false false).
 Definition do_repair_one (w : world) (a b : N) : world :=
-  on_pair w a b (fun l => if N.eqb a (l_a l) then set_helds (set_cuts l false (l_cut_ba l)) false (l_held_ba l)
-                          else set_helds (set_cuts l (l_cut_ab l) false) (l_held_ab l) false).
+  on_pair w a b (fun l => if N.eqb a (l_a l)
+                          then set_rands (set_helds (set_cuts l false (l_cut_ba l)) false (l_held_ba l)) false (l_rand_ba l)
+                          else set_rands (set_helds (set_cuts l (l_cut_ab l) false) (l_held_ab l) false) (l_rand_ab l) false).
+(* the outcomes of the coins at the coming enqueues of the link (read from the decision log) *)
+Definition do_coins (w : world) (a b : N) (cs : list (bool * bool)) : world :=
+  on_pair w a b (fun l => set_coins l (l_coins l ++ cs)).
 
 (* Topology::deliver_messages for host h: every link with h as an endpoint, in
    registration order *)
@@ -594,9 +652,6 @@ Fixpoint drain_links (w : world) (h : N) (n : nat) : world * bool :=
       end
   end.
 
-Definition from_host (w : world) (h : N) (m : wmsg) : bool :=
-  match msg_src w m with Some s => N.eqb s h | None => false end.
-
 Definition do_partition (w : world) (a b : N) (oneway : bool) : world :=
   match find (fun l => on_link l a b) (w_links w) with
   | None => w
@@ -605,10 +660,11 @@ Definition do_partition (w : world) (a b : N) (oneway : bool) : world :=
       let w1 := set_links w (map (fun l =>
                   if on_link l a b then
                     if oneway then
-                      set_sent (if N.eqb a (l_a l) then set_helds (set_cuts l true (l_cut_ba l)) false (l_held_ba l)
-                                else set_helds (set_cuts l (l_cut_ab l) true) (l_held_ab l) false)
+                      set_sent (if N.eqb a (l_a l)
+                                then set_rands (set_helds (set_cuts l true (l_cut_ba l)) false (l_held_ba l)) false (l_rand_ba l)
+                                else set_rands (set_helds (set_cuts l (l_cut_ab l) true) (l_held_ab l) false) (l_rand_ab l) false)
                                (filter (fun m => negb (from_host w a m)) (l_sent l))
-                    else set_sent (set_helds (set_cuts l true true) false false) []
+                    else set_sent (set_rands (set_helds (set_cuts l true true) false false) false false) []
                   else l) (w_links w)) in
       fold_left syn_gone dropped w1
   end.
@@ -669,7 +725,8 @@ Inductive ev :=
 | Partition (a b : N) | PartitionOne (a b : N) | Repair (a b : N)
 | LoopStep (h : N)
 | Count (h : N)
-| View.
+| View
+| Coins (a b : N) (cs : list (bool * bool)).
 
 Definition panic_res (wp : world * bool) : world * res :=
   if snd wp then (fst wp, RPanic) else (fst wp, RNone).
@@ -698,13 +755,15 @@ Definition step (w : world) (e : ev) : world * res :=
   | LoopStep h => panic_res (do_loop_step w h)
   | Count h => (w, RCount (stream_count w h))
   | View => (w, view w)
+  | Coins a b cs => (do_coins w a b cs, RNone)
   end.
 
 (* links of n hosts in registration order h0, h1, ..: (0,1), (0,2), (1,2), .. *)
 Definition init_links (n : nat) : list link :=
   flat_map (fun b => map (fun a => {| l_a := N.of_nat a; l_b := N.of_nat b; l_sent := []; l_rdy_a := [];
                                        l_rdy_b := []; l_cut_ab := false; l_cut_ba := false;
-                                       l_held_ab := false; l_held_ba := false |}) (seq 0 b))
+                                       l_held_ab := false; l_held_ba := false;
+                                       l_rand_ab := false; l_rand_ba := false; l_coins := [] |}) (seq 0 b))
            (seq 0 n).
 
 Definition init (n cp : nat) (lo hi : N) : world :=
